@@ -200,9 +200,10 @@ impl Worker for W {
                 }
             }
         }
-        // shape of the listed finding F57: a record update whose type meets an open row through
-        // a function used twice on its own result (`twice f x = f (f x)`)
-        let f57_shape = has("record-update") && src.contains("twice");
+        // shape of the listed finding F57: a record update in a program that passes records through
+        // functions (`twice f x = f (f x)`, higher-order functions, applied lambdas), where its
+        // closed type can meet an open row
+        let f57_shape = has("record-update") && (src.contains("twice") || has("higher-order") || has("applied-lambda"));
         crate::worker::note_key(&json!({"record_update_and_twice": f57_shape}));
         let stress = case["gc_stress"].as_u64().unwrap_or(0) as usize;
         gluon::vm::verif::set_gc_stress(stress);
